@@ -22,7 +22,7 @@ WATCH = ('create', 'set', 'setm', 'add', 'remove', 'clear', 'assign', 'delete')
 
 def twins(env, fixture, prefix, op):
     res = ('resolve', tuple(sx.operands(op)))
-    tail = [('view_counts',), ('view_noflush',), ('commit',)]
+    tail = [('r_indexes',), ('view_counts',), ('view_noflush',), ('commit',)]
     a = env.run(list(prefix) + [res] + tail, fixture, track_dumps=True)
     b = sx.Exec(env, fixture, track_dumps=True)
     try:
@@ -34,9 +34,9 @@ def twins(env, fixture, prefix, op):
             n = len(b.obs)
             b.obs_call = o
             if o[0] == 'exc' and not died:
-                b.apply(tail[0]); b.apply(tail[1])
+                b.apply(tail[0]); b.apply(tail[1]); b.apply(tail[2])
                 b.dumps = [env.dump()]
-                b.apply(tail[2])
+                b.apply(tail[3])
             b.call_died = died
     finally: b.finish()
     return a, b
@@ -44,9 +44,11 @@ def twins(env, fixture, prefix, op):
 def compare(env, a, b):
     """list of differing components between twin A (call not made) and twin B (call raised)"""
     if a.skipped or b.skipped: return None
-    if a.obs[-4][0] != 'ok': return None               # the operand look-up itself fails
+    if a.obs[-5][0] != 'ok': return None               # the operand look-up itself fails
     if b.obs_call[0] != 'exc' or b.call_died: return None
     d = []
+    ia, ib = a.obs[-4], b.obs[-4]                       # consistency of the session's key indexes with the objects' values
+    if ia != ib: d.append('indexes[%s]' % ','.join(sorted(set(map(str, ib[1] if isinstance(ib[1], list) else [ib[1]])) - set(map(str, ia[1] if isinstance(ia[1], list) else [ia[1]])))))
     ka, kb = a.obs[-3], b.obs[-3]
     if ka != kb:
         if ka[0] == 'ok' and kb[0] == 'ok':
